@@ -177,7 +177,9 @@ def history_prelude(t, nodes, rng, typed):
             elif r < 0.7:
                 c = n.add("tmp-child", **kw)  # childless -> one child -> childless again
                 c.remove()
-            elif r < 0.85:
+            elif r < 0.78:
+                n.remove(keep_children=True)  # may be refused half-way through its children (collision)
+            elif r < 0.88:
                 # move within the own parent (also as an only child) / to another node
                 tgt = rng.choice([n.parent if n.parent is not None else t, rng.choice(live)])
                 if tgt is not n and not (hasattr(tgt, "is_descendant_of") and tgt.is_descendant_of(n)):
@@ -196,3 +198,27 @@ def history_prelude(t, nodes, rng, typed):
 
     rec(t)
     return out
+
+
+def refused_prelude(t, nodes, rng, typed):
+    """Like history_prelude, but shape-neutral: only calls that must be refused and add/remove pairs.
+    Used where the oracle is computed from the *built* shape."""
+    kw = {"kind": "kx"} if typed else {}
+    for _ in range(3):
+        if not nodes:
+            break
+        n = rng.choice(nodes)
+        r = rng.random()
+        try:
+            if r < 0.3:
+                n.add("tmp-new", before=n, **kw)  # `before` is not a child of n
+            elif r < 0.45:
+                n.add("tmp-new", before="garbage", **kw)
+            elif r < 0.6 and typed:
+                n.add("tmp-new", kind=123)
+            elif r < 0.75:
+                n.add(n, deep=True, data_id="some-id", **kw)
+            else:
+                n.add("tmp-child", **kw).remove()
+        except Exception:
+            pass
